@@ -7,11 +7,19 @@ from .c01 import std_ops
 UPDATE_OPS = ("update", "update_all")
 
 
+def alphabet_tz():
+    import datetime as _dt
+
+    return _dt.timezone(_dt.timedelta(hours=-8))
+
+
 def update_specs(alpha):
     t, x, z, q = alpha.t, alpha.x, alpha.z, alpha.q
     S = [
         ("time-static", W.mkspec(time=t[0])),
         ("time-fn", W.mkspec(time=("fn", "t_swap"))),
+        ("time-fn-non-utc-zone", W.mkspec(time=("fn", "t_swap_offset"))),
+        ("time-static-non-utc-zone", W.mkspec(time=t[0].astimezone(alphabet_tz()))),
         ("meas-static", W.mkspec(measurement="n")),
         ("meas-fn", W.mkspec(measurement=("fn", "m_swap"))),
         ("tags-static", W.mkspec(tags={"a": z})),
